@@ -41,7 +41,7 @@ RULE = ("(seq12/seq20, EXHAUSTIVE) for each item-grader class (String with a val
         "default_functions / default_suffixes / default_comparer / log_created / inferring_answers, "
         "MathArray._negative_powers, np.geterr(), np.geterrcall()) are compared after construction and after every "
         "call. Non-trivial = a raising call is followed by a judged call, or two different expects reach one grader, or "
-        "two graders sharing an object are both used. Distinct by spec hash.")
+        "two graders sharing an object are both used. Distinct by spec hash. (pairs, EXHAUSTIVE) for every ordered pair of 18 grader templates (allow_inf, deleted constants, metric suffixes, user functions/constants, negative powers off, whitelist, interval, sum, lists): building and using the first must not change what the second, built afterwards, returns - reference = the second built in a pristine forked child.")
 ASSUMPTIONS = ["student input is text (non-text inputs are used only as the 'non-text' event, where the library must "
                "refuse them without side effects); expect is a string or None",
                "sampling is pinned with set_seed(spec seed) immediately before every grader call on both sides, so the "
@@ -883,3 +883,102 @@ PARTS = [
     Part('nested_debug', 'enum', judge_nested, items=items_nested, exhaustive=True),
     Part('random', 'hyp', judge_random, strategy=strat_random, budget={'quick': 500, 'thorough': 8000}),
 ]
+
+
+# ----------------------------------------------------------------------------------------------------------------
+# 'pairs': constructing and using a grader T1 must not change what a grader T2 built AFTERWARDS returns
+# (added after seeded changes that a fresh-instance differential cannot see, because the fresh instance is built in
+# the already contaminated process: a class-level table shared by all allow_inf graders losing 'pi'; metric suffixes
+# written into the table every grader reads).  Reference = T2 built and probed in a pristine forked child.
+
+from vlib.isolate import run_in_fork  # noqa: E402
+
+
+def _pair_templates():
+    from mitxgraders import (FormulaGrader as F, NumericalGrader as N, MatrixGrader as M, IntervalGrader as I,
+                             SumGrader as S, StringGrader as St, SingleListGrader as SL, ListGrader as L)
+    A = lambda: MathArray([[1, 2], [3, 4]])   # noqa: E731
+    return {
+        'num': (lambda: N(answers='pi'), ['pi', '3.14159', 'e', '1e400', 'infty']),
+        'num_inf': (lambda: N(answers='pi', allow_inf=True), ['pi', 'infty', 'e']),
+        'num_inf_nopi': (lambda: N(answers='2', allow_inf=True, user_constants={'pi': None}), ['2', 'pi']),
+        'num_nopi_noe': (lambda: N(answers='2', user_constants={'pi': None, 'e': None}), ['2', 'pi', 'e']),
+        'form': (lambda: F(answers='x+pi', variables=['x']), ['pi+x', 'x+3', '2k*x', 'sin(x)']),
+        'form_metric': (lambda: F(answers='2000*x', variables=['x'], metric_suffixes=True), ['2k*x', '2000*x', '2M*x']),
+        'form_inf': (lambda: F(answers='infty', allow_inf=True), ['infty', '-infty', 'pi']),
+        'form_inf_nopi': (lambda: F(answers='x', variables=['x'], allow_inf=True, user_constants={'pi': None, 'i': None}),
+                          ['x', 'pi', 'i']),
+        'form_userfunc': (lambda: F(answers='f(x)', variables=['x'], suppress_warnings=True,
+                                    user_functions={'f': lambda x: x * x, 'sin': lambda x: x}), ['x^2', 'sin(x)', 'f(x)']),
+        'form_const': (lambda: F(answers='c*x', variables=['x'], user_constants={'c': 3.0, 'e': 7.0},
+                                 suppress_warnings=True), ['3*x', 'c*x', 'e*x/7*3']),
+        'form_white': (lambda: F(answers='x', variables=['x'], whitelist=[None]), ['x', 'sin(0)+x']),
+        'matrix': (lambda: M(answers='A*[1,2]', user_constants={'A': A()}, max_array_dim=2),
+                   ['[5,11]', 'A^-1*[5,11]', 'A*[1,2]', 'abs([3,4])']),
+        'matrix_noneg': (lambda: M(answers='A*[1,2]', user_constants={'A': A()}, negative_powers=False, max_array_dim=2),
+                         ['[5,11]', 'A^-1*[5,11]']),
+        'interval': (lambda: I(answers='[1,pi)'), ['[1,pi)', '[1,3.1)', '[1,infty)']),
+        'sum': (lambda: S(answers={'lower': '1', 'upper': '4', 'summand': 'n', 'summation_variable': 'n'}),
+                [['1', '4', 'n', 'n'], ['1', '4', 'k+pi-pi', 'k'], ['1', 'infty', '2^-n*0+n*0', 'n']]),
+        'string': (lambda: St(answers='cat', wrong_msg='no'), ['cat', 'dog']),
+        'slist': (lambda: SL(answers=['x+1', '2*x'], subgrader=F(variables=['x'])), ['x+1, 2*x', '2*x, pi']),
+        'list': (lambda: L(answers=['x', 'pi'], subgraders=F(variables=['x'])), [['x', 'pi'], ['pi', '2k']]),
+    }
+
+
+_PAIR_T = None
+
+
+def _pt():
+    global _PAIR_T
+    if _PAIR_T is None:
+        _PAIR_T = _pair_templates()
+    return _PAIR_T
+
+
+def _probe(name):
+    mk, probes = _pt()[name]
+    out = []
+    try:
+        g = mk()
+    except Exception as e:  # noqa: BLE001
+        return [('construct-exc', type(e).__name__, str(e)[:200])]
+    for p in probes:
+        set_seed(11)
+        try:
+            r = g(None, p)
+            out.append(('ret', repr(sorted(r.items()) if 'input_list' not in r else r)))
+        except Exception as e:  # noqa: BLE001
+            out.append(('exc', type(e).__name__, str(e)[:200]))
+    return out
+
+
+_PAIR_REF = {}
+
+
+def items_pairs(tier):
+    names = sorted(_pt())
+    for a in names:
+        for b in names:
+            yield {'first': a, 'then': b}
+
+
+def judge_pair(spec, rec):
+    a, b = spec['first'], spec['then']
+    if b not in _PAIR_REF:
+        _PAIR_REF[b] = run_in_fork(lambda: _probe(b))
+    ref = _PAIR_REF[b]
+    got = run_in_fork(lambda: (_probe(a), _probe(b))[1])
+    rec.calls(2)
+    rec.cls('pairs/judged')
+    rec.nontrivial(a != b)
+    if got != ref:
+        diff = [(p, x, y) for p, x, y in zip(_pt()[b][1], got, ref) if x != y]
+        raise Violation('construction-changes-other-grader/%s' % b,
+                        'after building and using template %r, template %r behaves differently from a pristine '
+                        'process: %r' % (a, b, diff[:2] or (got[:1], ref[:1])))
+    return {'first': a, 'then': b, 'probes': len(ref)}
+
+
+PARTS.append(Part('pairs', 'enum', judge_pair, items=items_pairs, exhaustive=True))
+REQUIRED['pairs/judged'] = 300
